@@ -476,3 +476,40 @@ Example C15_savedir_load_roundtrip_ex :
       map dname (c_deps c') = ["dep-a"; "dep-b"].
 Proof. exact savedir_example. Qed.
 Print Assumptions C15_savedir_load_roundtrip_ex.
+
+(* ---------- subchart directories that are skipped; the "error unpacking" paths ---------- *)
+(* files handed to a subchart whose name starts with '_' or '.' (charts/_x/..., charts/.x.tgz) have
+   no influence on what LoadFiles returns (Raw apart, which is the input list) *)
+Theorem C15_hidden_subcharts_ignored :
+  forall (md_merge : meta -> string -> option meta) (lock_dec : string -> option (option lockv))
+         (parse_values : string -> option val) (untar : string -> tstream)
+         (sanitize : meta -> meta) (is_semver : string -> bool) (rest_valid : meta -> bool)
+         (maxt maxf : Z) (fuel : nat) (l : list file),
+  load_files md_merge lock_dec parse_values untar sanitize is_semver rest_valid maxt maxf fuel l =
+  match load_files md_merge lock_dec parse_values untar sanitize is_semver rest_valid maxt maxf fuel
+                   (filter (fun f => negb (hidden_file f)) l) with
+  | inl e => inl e
+  | inr c => inr (Chart (c_meta c) (c_lock c) l (c_values c) (c_schema c) (c_templates c) (c_files c) (c_deps c))
+  end.
+Proof. exact hidden_subcharts_ignored. Qed.
+Print Assumptions C15_hidden_subcharts_ignored.
+
+(* a packed dependency charts/<n> (n ends in .tgz, does not start with '_' or '.') makes LoadFiles
+   fail when the first file of its group is not the archive itself (charts/a.tgz/extra listed
+   first), when the archive cannot be read, or when the chart inside does not load *)
+Theorem C15_packed_subchart_errors :
+  forall (md_merge : meta -> string -> option meta) (lock_dec : string -> option (option lockv))
+         (parse_values : string -> option val) (untar : string -> tstream)
+         (sanitize : meta -> meta) (is_semver : string -> bool) (rest_valid : meta -> bool)
+         (maxt maxf : Z) (fuel : nat) (l : list file) (n : string),
+  group (Some n) l <> [] -> hidden n = false -> String.eqb (path_ext n) ".tgz" = true ->
+  (match group (Some n) l with
+   | f :: _ => charts_rest (f_name f) <> n \/
+               (exists e, load_archive_files maxt maxf (untar (f_data f)) = inl e) \/
+               (exists afs e, load_archive_files maxt maxf (untar (f_data f)) = inr afs /\
+                  load_files md_merge lock_dec parse_values untar sanitize is_semver rest_valid maxt maxf fuel afs = inl e)
+   | [] => False
+   end) ->
+  exists e, load_files md_merge lock_dec parse_values untar sanitize is_semver rest_valid maxt maxf (S fuel) l = inl e.
+Proof. exact packed_subchart_errors. Qed.
+Print Assumptions C15_packed_subchart_errors.
